@@ -34,7 +34,9 @@ func runCase(t *rapid.T, e node) {
 	P := rapid.SampledFrom([]time.Duration{time.Millisecond, 100 * time.Millisecond, 500 * time.Millisecond, time.Second, 2 * time.Second}).Draw(t, "checkPeriod")
 	phase := time.Duration(rapid.Int64Range(0, int64(time.Second)-1).Draw(t, "phase"))
 	src := e.src(false)
+	cbh.BlockEffects = rapid.IntRange(0, 2).Draw(t, "hangingSideEffects") == 0 // webhooks that never return
 	d := cbh.New(t, src, FD, R, P, phase)
+	cbh.BlockEffects = false
 	defer d.Close()
 
 	var recs []rec                                  // completed since the last trip
